@@ -65,6 +65,18 @@ impl Set {
     }
 }
 
+impl Drop for Set {
+    fn drop(&mut self) {
+        // The set is normally emptied by the main thread of the execution. If
+        // it still holds values, the execution is being torn down by a panic:
+        // the values may own loom objects, whose destructors need access to the
+        // execution, which is gone. Leak them, like the stacks of the threads.
+        if std::thread::panicking() {
+            std::mem::forget(self.statics.take());
+        }
+    }
+}
+
 impl StaticKeyId {
     fn new<T>(key: &'static crate::lazy_static::Lazy<T>) -> Self {
         Self(key as *const _ as usize)
